@@ -148,7 +148,7 @@ func streamFn(seed uint64, idx int) caseT {
 		}
 	}
 	e := sig.name + "(" + strings.Join(args, ", ") + ")"
-	if (sig.name == "keys" || sig.name == "values") {
+	if sig.name == "keys" || sig.name == "values" {
 		return caseT{lines: []string{"SU " + hexField(e) + " " + canonOf(doc)}}
 	}
 	lines := []string{"S " + hexField(e) + " " + canonOf(doc)}
@@ -169,12 +169,7 @@ var matrixNames = func() []string {
 	for _, s := range fnSigs {
 		out = append(out, s.name)
 	}
-	out = append(out, "nosuch", "lenght", "Abs")
-	// unknown names of every length up to 40 bytes (an error message that measures, pads or compares names)
-	for n := 1; n <= 40; n++ {
-		out = append(out, strings.Repeat("sort_by_descending_order_of_everything_", 2)[:n])
-	}
-	return out
+	return append(out, "nosuch", "lenght", "Abs")
 }()
 
 func matrixCount(maxArgs int) int {
@@ -187,8 +182,17 @@ func matrixCount(maxArgs int) int {
 	return per * len(matrixNames)
 }
 
+func g3(k int) string { return []string{"(a)", "()", "(@, `1`)", "(&a)"}[k%4] }
+
 // fnmatrix (C10): the full matrix name × argument count × argument tuple.
 func streamFnMatrix(seed uint64, idx int) caseT {
+	if idx%500 == 499 {
+		// unknown names of every length up to 48 bytes (an error message that measures, pads or compares names)
+		n := (idx/500)%48 + 1
+		name := strings.Repeat("sort_by_descending_order_of_everything_", 2)[:n]
+		e := name + g3(idx/500/48)
+		return caseT{lines: []string{"S " + hexField(e) + " " + canonOf(map[string]interface{}{"a": 1.0})}}
+	}
 	name := matrixNames[idx%len(matrixNames)]
 	k := idx / len(matrixNames)
 	n, span := 0, 1
